@@ -100,6 +100,18 @@ func verifyUnit(p *Program, u *Unit) (res *UnitResult) {
 	// axioms of the package
 	envA := &SpecEnv{run: r, st: st, old: r.entry, bound: map[string]Val{}}
 	for _, ax := range p.Axioms {
+		if ax.Lemma {
+			used := false
+			for _, n := range u.Uses {
+				if n == ax.Name {
+					used = true
+				}
+			}
+			if used {
+				st.assume(r.specBool(envA, ax.C, "lemma "+ax.Name))
+			}
+			continue
+		}
 		if ax.Short == u.Short || ax.Short == "global" {
 			st.assume(r.specBool(envA, ax.C, "axiom "+ax.Name))
 			r.assumption("axiom " + ax.Name + ": " + ax.C.Text)
@@ -191,6 +203,42 @@ func (r *UnitRun) bindEdgeGhost(st *State, u *Unit, f string) {
 		r.needDomain(x.fn)
 		st.assume(eq(sx(x.fn, f), v.T))
 	}
+}
+
+// verifyLemma proves a lemma from the domain axioms alone.
+func verifyLemma(p *Program, ax Axiom) *UnitResult {
+	var pkg *Unit
+	for _, n := range sortedKeys(p.Units) {
+		if p.Units[n].Short == ax.Short && !p.Units[n].Abstract {
+			pkg = p.Units[n]
+			break
+		}
+	}
+	u := &Unit{Name: "lemma." + ax.Name, Short: ax.Short, Pkg: pkg.Pkg, HasSpec: true, Loops: map[int]*LoopSpec{}, Where: ax.C.Where}
+	r := newUnitRun(p, u)
+	res := &UnitResult{Unit: u, Run: r}
+	defer func() {
+		if x := recover(); x != nil {
+			switch e := x.(type) {
+			case toolLimit:
+				r.limit("%s", string(e))
+			case specError:
+				r.limit("spec: %s", string(e))
+			default:
+				panic(x)
+			}
+		}
+		res.Obls = r.obls
+		res.Limits = r.limits
+		res.Paths = 1
+	}()
+	st := &State{u: r, vars: map[types.Object]Val{}, names: map[string]types.Object{}, arrs: map[*Obj]string{}, heap: map[string]string{}, frozen: map[*Obj]bool{}, ghost: map[string]Val{}}
+	r.entry = st.clone()
+	env := &SpecEnv{run: r, st: st, old: r.entry, bound: map[string]Val{}}
+	goal := r.specBool(env, ax.C, "lemma "+ax.Name)
+	r.oblige(st, "lemma", "0", goal, nil, "lemma "+ax.Name+": "+ax.C.Text, nil)
+	r.oblige(st, "canary", "entry", "false", nil, "domain axioms are consistent (must NOT be provable)", nil)
+	return res
 }
 
 // extraDeclText returns the on-demand declarations (domain functions, axioms) this unit needs.
